@@ -147,9 +147,13 @@ type env struct {
 }
 
 func newEnv(c Case, fault bool) (*env, error) {
-	dir, err := os.MkdirTemp("", "c15-")
+	// a memory-backed file system if there is one (the file is still a real Bolt file, created,
+	// closed and reopened through the OS), else the temp dir the driver assigned
+	dir, err := os.MkdirTemp("/dev/shm", "c15-")
 	if err != nil {
-		return nil, err
+		if dir, err = os.MkdirTemp("", "c15-"); err != nil {
+			return nil, err
+		}
 	}
 	e := &env{dir: dir, file: filepath.Join(dir, "kapacitor.db"), prefix: c.Prefix}
 	for _, b := range c.Buckets {
